@@ -88,7 +88,7 @@ func FindLayerUsers(prefix string) (InUseLayerMap, error) {
 		items, err := fdh.Readdir(-1)
 		fdh.Close()
 		if nil != err {
-			return nil, err
+			continue
 		}
 		if nil == items {
 			continue
